@@ -47,6 +47,9 @@ pub fn shards(tier: &str) -> Vec<String> {
             v.push(format!("pairs:{k}:{o}"));
         }
     }
+    // loom model of the substitution id generator: ids are cache-key components, so they must be unique
+    // under every interleaving of concurrent `Subst::new()` calls
+    v.extend(super::loomx::substid_shards());
     // operations whose cache key has a numeric operand (substitution id, variable number)
     for k in ["bdd", "bcdd", "zbdd"] {
         for cap in [1, 2, 16, 4096] {
@@ -58,6 +61,9 @@ pub fn shards(tier: &str) -> Vec<String> {
 
 pub fn run(ctx: &mut Ctx) {
     let shard = ctx.shard.clone();
+    if shard.starts_with("loom:") {
+        return super::loomx::run_substid(ctx);
+    }
     if let Some(rest) = shard.strip_prefix("pairs:") {
         let (k, o) = rest.split_once(':').unwrap();
         let order = model::parse_order(o);
